@@ -79,13 +79,16 @@ SentCases(zzdummy) ==
 
 (* operator chains: a primary followed by every sequence of 1..N postfix operators, also under "!" and as the
    right operand of a comparison (every pair and chain of postfix operators is juxtaposed) *)
-Postfix == {<<"Dot", "Ident">>, <<"Dot", "QIdent">>, <<"Lbracket", "Num", "Rbracket">>, <<"Lbracket", "Star", "Rbracket">>, <<"Flatten">>,
+Postfix == {<<"Dot", "Ident">>, <<"Dot", "QIdent">>, <<"Filter", "Ident", "Lbracket", "Star", "Rbracket", "Rbracket">>, <<"Filter", "Ident", "Flatten", "Rbracket">>,
+            <<"Dot", "Ident", "Lparen", "At", "Rparen">>, <<"Lbracket", "Num", "Rbracket">>, <<"Lbracket", "Star", "Rbracket">>, <<"Flatten">>,
             <<"Filter", "Ident", "Rbracket">>, <<"Lbracket", "Num", "Colon", "Rbracket">>, <<"Dot", "Star">>,
             <<"Dot", "Lbrace", "Ident", "Colon", "Ident", "Rbrace">>, <<"Dot", "Lbracket", "Ident", "Rbracket">>}
 RECURSIVE ChainsOf(_)
 ChainsOf(n) == IF n = 0 THEN {<<>>} ELSE LET c == ChainsOf(n - 1) IN c \cup {x \o p : x \in c, p \in Postfix}
 ChainKinds(zzdummy) == LET cs == ChainsOf(N) \ {<<>>}
               IN {<<"Ident">> \o c : c \in cs} \cup {<<"Not", "Ident">> \o c : c \in cs}
+                 \cup {<<"Ident", "Lparen", "Ident", "Rparen">> \o c : c \in ChainsOf(N - 1) \ {<<>>}}          \* a call as the primary
+                 \cup {<<"Not", "Ident", "Lparen", "Ident", "Rparen">> \o c : c \in ChainsOf(N - 1) \ {<<>>}}   \* ... under "!"
                  \cup {<<"At", "Cmp", "Ident">> \o c : c \in ChainsOf(N - 1) \ {<<>>}}
 ChainCases(zzdummy) ==
   LET all == SetToSeq(ChainKinds(0)) docs == Docs
@@ -102,6 +105,47 @@ JuxtaCases(zzdummy) ==
   IN [x \in 1..(n * n) |-> [e |-> "lang", text |-> Spell(Toks(S[si(x)] \o S[sj(x)]), ModeAt(x), x % 2)]]
      \o [x \in 1..(n * n) |-> [e |-> "lang", text |-> Spell(Toks(<<"Lparen">> \o S[si(x)] \o <<"Rparen">> \o S[sj(x)]), ModeAt(x), x % 2)]]
 
+(* parenthesis wrapping: every sentence of at most N tokens with a pair of parentheses around every contiguous span of its tokens:
+   a sentence where the span is an expression in an operand position, a non-sentence elsewhere (a parenthesised key, name, bracket ...) *)
+WrapSpan(ks, i, j) == SubSeq(ks, 1, i - 1) \o <<"Lparen">> \o SubSeq(ks, i, j) \o <<"Rparen">> \o SubSeq(ks, j + 1, Len(ks))
+WrapCases(zzdummy) ==
+  LET G == Sets(N)
+      S == SetToSeq(UNION {G.E[n] : n \in 1..N})
+      spans == SetToSeq({<<q, i, j>> : q \in DOMAIN S, i \in 1..N, j \in 1..N})
+      ok(x) == spans[x][2] <= spans[x][3] /\ spans[x][3] <= Len(S[spans[x][1]])
+      sel == SelectSeq([x \in DOMAIN spans |-> x], ok)
+  IN [y \in DOMAIN sel |-> [e |-> "lang", text |-> Spell(Toks(WrapSpan(S[spans[sel[y]][1]], spans[sel[y]][2], spans[sel[y]][3])), ModeAt(y), y % 2)]]
+
+(* an ampersand before every token of skeleton sentences that contain a call: an expression reference is a sentence only as a
+   whole function argument *)
+AmpSkeletons == <<
+  <<"Ident", "Lparen", "Ident", "Rparen">>, <<"Ident", "Lparen", "Ident", "Comma", "Ident", "Rparen">>,
+  <<"Ident", "Lparen", "Ident", "Dot", "Lbracket", "Ident", "Rbracket", "Rparen">>,
+  <<"Ident", "Lparen", "Ident", "Dot", "Lbracket", "Ident", "Comma", "Ident", "Rbracket", "Rparen">>,
+  <<"Ident", "Lparen", "Lbracket", "Ident", "Rbracket", "Rparen">>, <<"Ident", "Lparen", "Lparen", "Ident", "Rparen", "Rparen">>,
+  <<"Ident", "Lparen", "Lbrace", "Ident", "Colon", "Ident", "Rbrace", "Rparen">>,
+  <<"Ident", "Lparen", "Ident", "Rparen", "Dot", "Lbracket", "Ident", "Rbracket">>,
+  <<"Ident", "Lparen", "Ident", "Lbracket", "Star", "Rbracket", "Dot", "Lbracket", "Ident", "Rbracket", "Rparen">>,
+  <<"Ident", "Lparen", "Ident", "Flatten", "Dot", "Lbracket", "Ident", "Rbracket", "Rparen">>,
+  <<"Ident", "Lparen", "Ident", "Filter", "Ident", "Rbracket", "Dot", "Lbracket", "Ident", "Rbracket", "Rparen">>,
+  <<"Ident", "Lparen", "Ident", "Dot", "Star", "Dot", "Lbracket", "Ident", "Rbracket", "Rparen">>,
+  <<"Ident", "Lparen", "Lbrace", "Ident", "Colon", "Ident", "Dot", "Lbracket", "Ident", "Rbracket", "Rbrace", "Rparen">>,
+  <<"Ident", "Lparen", "Ident", "Pipe", "Lbracket", "Ident", "Rbracket", "Rparen">>, <<"Ident", "Lparen", "Ident", "Or", "Ident", "Rparen">>,
+  <<"Ident", "Lparen", "Not", "Ident", "Rparen">>, <<"Ident", "Lparen", "Ident", "Cmp", "Ident", "Rparen">>,
+  <<"Ident", "Lparen", "Ident", "Lparen", "Ident", "Rparen", "Rparen">>, <<"Ident", "Lparen", "Ident", "Dot", "Ident", "Lparen", "Ident", "Rparen", "Rparen">>,
+  <<"Ident", "Lparen", "Ident", "Filter", "Ident", "Rbracket", "Rparen">>, <<"Ident", "Lparen", "Ident", "Lbracket", "Num", "Rbracket", "Rparen">>,
+  <<"Ident", "Lparen", "At", "Rparen">>, <<"Ident", "Lparen", "Ident", "Comma", "Amp", "Ident", "Dot", "Lbracket", "Ident", "Rbracket", "Rparen">>,
+  <<"Ident", "Lparen", "Amp", "At", "Dot", "Lbracket", "Ident", "Comma", "Ident", "Rbracket", "Comma", "Ident", "Rparen">>,
+  <<"Ident", "Lparen", "Ident", "Comma", "Ident", "Lparen", "Ident", "Rparen", "Dot", "Lbracket", "Ident", "Rbracket", "Rparen">>,
+  <<"Lbracket", "Ident", "Lparen", "Ident", "Rparen", "Comma", "Ident", "Rbracket">>, <<"Ident", "Dot", "Lbracket", "Ident", "Rbracket">>,
+  <<"Lbracket", "Ident", "Rbracket">>, <<"Ident">>, <<"Ident", "Dot", "Ident">> >>
+AmpCases(zzdummy) ==
+  LET cells == SetToSeq({<<q, i>> : q \in DOMAIN AmpSkeletons, i \in 1..14})
+      ok(x) == cells[x][2] <= Len(AmpSkeletons[cells[x][1]]) + 1
+      sel == SelectSeq([x \in DOMAIN cells |-> x], ok)
+  IN [y \in DOMAIN sel |-> [e |-> "lang", text |-> Spell(Toks(InsTok(AmpSkeletons[cells[sel[y]][1]], cells[sel[y]][2], "Amp")), ModeAt(y), y % 2)]]
+     \o [q \in DOMAIN AmpSkeletons |-> [e |-> "lang", text |-> Spell(Toks(AmpSkeletons[q]), "spaced", 0)]]
+
 (* Unicode class probes: a character of a class that Unicode-aware predicates (is_numeric, is_alphabetic, is_whitespace) accept
    but the grammar does not, right after a character that starts a token; alone, continued, and inside the usual frames *)
 Probe == <<1635, 178, 189, 9312, 65297, 120783, 3047, 65313, 233, 1072, 160, 12288, 8232, 133, 8203, 65279, 127, 128, 769, 8255>>
@@ -111,8 +155,14 @@ Frames == << <<<<>>, <<>>>>, <<<<64, 91>>, <<93>>>>, <<<<97, 91>>, <<58, 93>>>>,
 UniCases(zzdummy) ==
   LET cells == SetToSeq({<<c, u, f, k>> : c \in DOMAIN Entry, u \in DOMAIN Probe, f \in DOMAIN Frames, k \in 1..3})
       tail(c, k) == CASE k = 1 -> <<>> [] k = 2 -> <<53>> [] k = 3 -> <<Entry[c]>>
+      \* the probe before, after and between the tokens of a few whole sentences (a leading byte order mark, a trailing NBSP ...)
+      sents == << <<97>>, <<97, 98, 115, 40, 97, 41>>, <<97, 46, 98>>, <<97, 91, 48, 93>>, <<39, 120, 39>>, <<96, 49, 96>>,
+                  <<97, 46>>, <<97, 91>>, <<97, 98, 115, 40>>, <<97, 32, 98>> >>          \* ... and of a few texts that fail to compile by themselves
+      around == SetToSeq({<<u, q, w>> : u \in DOMAIN Probe, q \in DOMAIN sents, w \in 1..3})
   IN [x \in DOMAIN cells |-> [e |-> "lang", text |-> Frames[cells[x][3]][1] \o <<Entry[cells[x][1]], Probe[cells[x][2]]>>
                                                      \o tail(cells[x][1], cells[x][4]) \o Frames[cells[x][3]][2]]]
+     \o [x \in DOMAIN around |-> [e |-> "lang", text |-> LET u == <<Probe[around[x][1]]>> t == sents[around[x][2]] w == around[x][3]
+                                                        IN IF w = 1 THEN u \o t ELSE IF w = 2 THEN t \o u ELSE u \o t \o u]]
 
 (* number tokens: leading zeros, digit runs longer than the ten digits of 2^31, multi-digit negatives, the 32-bit limits *)
 DigStrs == <<"0", "00", "01", "007", "0000000000", "00000000001", "00000000000", "00000000000000000003", "02147483647", "002147483647",
@@ -144,7 +194,7 @@ SpellCases(zzdummy) ==
 
 Cases(zzdummy) == CASE IOEnv.MODE = "tokens" -> TokenCases(0) [] IOEnv.MODE = "chars" -> CharCases(0) [] IOEnv.MODE = "near" -> NearCases(0)
            [] IOEnv.MODE = "sent" -> SentCases(0) [] IOEnv.MODE = "spell" -> SpellCases(0)
-           [] IOEnv.MODE = "chains" -> ChainCases(0) [] IOEnv.MODE = "juxta" -> JuxtaCases(0) [] IOEnv.MODE = "uni" -> UniCases(0) [] IOEnv.MODE = "numerals" -> NumeralCases(0)
+           [] IOEnv.MODE = "chains" -> ChainCases(0) [] IOEnv.MODE = "juxta" -> JuxtaCases(0) [] IOEnv.MODE = "wrap" -> WrapCases(0) [] IOEnv.MODE = "amp" -> AmpCases(0) [] IOEnv.MODE = "uni" -> UniCases(0) [] IOEnv.MODE = "numerals" -> NumeralCases(0)
 
 ASSUME ndJsonSerialize(IOEnv.OUT, Cases(0))
 ASSUME ndJsonSerialize(IOEnv.OUT \o ".docs", <<[docs |-> Docs]>>)
